@@ -33,6 +33,7 @@ import (
 type event struct {
 	seq      int   // 1-based, embedded in the payload (entry name "e<seq>")
 	ts       int64 // timestamp assigned by the buffer (LogEntry.TsNs)
+	viaFiler bool  // appended by the real Filer.logMetaEvent
 	callerTs int64 // what the caller passed (0 = let the buffer stamp)
 	size     int   // filler bytes
 	gen      int   // index into harness.gens once sealed, -1 while in the current buffer
@@ -396,11 +397,29 @@ func (h *harness) appendOne(size int, zero bool, inv int, dtNs int64, sentinel b
 	}
 	seq := len(h.events) + 1
 	inner := callerTs
-	data := payload(seq, inner, size)
-	h.lb.AddToBuffer([]byte("/d"), data, callerTs)
+	viaFiler := false
+	if callerTs != 0 && h.tsMode != tsClient && h.tsMode != tsRacing && seq%2 == 0 {
+		// every other plain append goes through the real Filer.logMetaEvent (it reads the clock, stamps the
+		// message and passes that timestamp on): the timestamp the subscriber will see in the message and
+		// hand back when it resumes must be the one the log keeps
+		viaFiler = true
+		ev := &filer_pb.EventNotification{NewEntry: &filer_pb.Entry{Name: fmt.Sprintf("e%d", seq)}}
+		if size > 0 {
+			if size > len(filler) {
+				filler = make([]byte, size)
+			}
+			ev.NewEntry.Content = filler[:size]
+		}
+		filer.VerifFilerForLogBuffer(h.lb).VerifLogMetaEvent(fmt.Sprintf("/d/e%d", seq), ev)
+		callerTs = 0 // not chosen here
+		h.r.Probe("append-through-filer-logMetaEvent")
+	} else {
+		data := payload(seq, inner, size)
+		h.lb.AddToBuffer([]byte("/d"), data, callerTs)
+	}
 	simkit.Wait()
 	st := h.lb.VerifState()
-	e := &event{seq: seq, ts: st.LastTsNs, callerTs: callerTs, size: size, gen: -1, sentinel: sentinel}
+	e := &event{seq: seq, ts: st.LastTsNs, callerTs: callerTs, size: size, gen: -1, sentinel: sentinel, viaFiler: viaFiler}
 	if len(h.events) > 0 && e.ts <= h.events[len(h.events)-1].ts {
 		h.r.Violate("out-of-order", "append-assigned-ts-not-increasing", "event %d got timestamp %d, not after event %d's %d", seq, e.ts, seq-1, h.events[len(h.events)-1].ts)
 	}
@@ -880,7 +899,18 @@ func (h *harness) checkDeliveries(s *sub) {
 			return
 		}
 		e := h.events[d.seq-1]
-		if d.ts != e.ts || d.inner != e.callerTs {
+		if e.viaFiler {
+			// the message carries the timestamp logMetaEvent read; the subscriber hands it back as its position when it
+			// resumes, so it has to be the position the log keeps for the event
+			if d.ts != e.ts {
+				h.subViolate(s, "garbled-event", "ts-mismatch;via="+d.label+";start="+s.kind, "subscriber %d received event %d with log timestamp %d, appended with %d", s.id, d.seq, d.ts, e.ts)
+				return
+			}
+			if d.inner != d.ts {
+				h.subViolate(s, "message-timestamp-differs-from-log-position", "filer-logMetaEvent", "subscriber %d received event %d whose message timestamp is %d while the log keeps it at %d: a subscriber resuming from the timestamp of the last message it got receives that message again (or skips others)", s.id, d.seq, d.inner, d.ts)
+				return
+			}
+		} else if d.ts != e.ts || d.inner != e.callerTs {
 			h.subViolate(s, "garbled-event", "ts-mismatch;via="+d.label+";start="+s.kind, "subscriber %d received event %d with timestamp %d/inner %d, appended with %d/inner %d", s.id, d.seq, d.ts, d.inner, e.ts, e.callerTs)
 			return
 		}
